@@ -76,11 +76,6 @@ func (e *engine) getCompiledModule(module *wasm.Module, listeners []experimental
 				cm.listenerAfterTrampolines[i] = after
 			}
 		}
-		if err = e.addCompiledModuleToMemory(module, cm); err != nil {
-			// Nobody will use the code read from the cache: let the mapping be released.
-			e.setFinalizer(cm.executables, executablesFinalizer)
-			return nil, false, err
-		}
 		ssaBuilder := ssa.NewBuilder()
 		machine := newMachine()
 		be := backend.NewCompiler(context.Background(), machine, ssaBuilder)
@@ -88,6 +83,12 @@ func (e *engine) getCompiledModule(module *wasm.Module, listeners []experimental
 
 		// Set the finalizer.
 		e.setFinalizer(cm.executables, executablesFinalizer)
+
+		// Only now the module is complete: other goroutines compiling the same module use it as soon as it is
+		// found in memory.
+		if err = e.addCompiledModuleToMemory(module, cm); err != nil {
+			return nil, false, err
+		}
 	}
 	return
 }
